@@ -387,3 +387,40 @@ func short(s string, n int) string {
 	}
 	return s[:n-3] + "..."
 }
+
+// ruleMustHit: completeness by must-pass-through. Every path from the entry of op to a return that may report
+// success either passes an edge on which one of the excuses holds (a reason why the action is not due) or
+// executes the action (a call matching hit, directly or inside a module helper). Used for "the poll asks the
+// backend whenever the stored state is still open" and the like - the dual of the usual "effect only behind
+// guard" rules.
+func (c *Ctx) ruleMustHit(rule, what, why string, op *ssa.Function, excuses []*Cond, hit func(d *CallDesc) bool) {
+	R := c.R
+	fk := c.P.FuncKey(op)
+	o := c.P.OriginsOf(op)
+	cut := NewCut()
+	for _, ex := range excuses {
+		for e := range o.AcceptEdges(ex) {
+			cut.Edges[e] = true
+		}
+	}
+	n := 0
+	for _, s := range c.Effects(op, hit) {
+		if s.Instr.Parent() == op {
+			cut.Barriers[s.Instr] = true
+			n++
+		}
+	}
+	if n == 0 {
+		R.Check(rule, fk, what, c.P.Pos(op.Pos()), false, why, "the action is not performed by the operation at all")
+		return
+	}
+	ok, detail := true, ""
+	for _, r := range o.SuccessReturns() {
+		if reach, path := ReachFromEntry(op, r, cut); reach {
+			ok = false
+			detail = "success return at " + c.P.InstrPos(r) + " reachable without the action and without an excuse: " + c.P.PathString(path)
+			break
+		}
+	}
+	R.Check(rule, fk, what, c.P.Pos(op.Pos()), ok, why, detail)
+}
